@@ -1,12 +1,17 @@
 """C17 — interval primitives agree with their set-theoretic definitions.
 
 Model: lean/StraxModel/Model/IntervalAlgos.lean (+ diffGaps from Model/Rechunk.lean); theorems: Props/C17.lean.
-Tie: differential correspondence of fully_contained_in / _fully_contained_in, split_by_containment (+ _split,
-_get_empty_container_ids), overlap_indices, touching_windows / _touching_windows, diff, _find_break_i / from_break,
-abs_time_to_prev_next_interval and sort_by_time against the compiled Lean driver: exhaustive small scope (every
-configuration of things x containers on a small grid, as *sweeps*: one engine case = one things array against every
-container configuration of the scope) plus random larger arrays and a malformed stream.
-Oracle: the definitions, evaluated directly (all pairs, O(n*m)) in plain Python on what the real code returned.
+Tie: (0) translator: Generated/OverlapIndices.lean is regenerated from the AST of overlap_indices and proved equal to the
+model; (1) differential correspondence of fully_contained_in / _fully_contained_in, split_by_containment (+ _split,
+_get_empty_container_ids), overlap_indices, touching_windows / _touching_windows, split_touching_windows, diff,
+_find_break_i / from_break, abs_time_to_prev_next_interval, sort_by_time (composite-key path, float64 guard band with the
+wrapping int64 key, np.sort fallback) and sort_enforcement (stable_sort / stable_argsort / sort kinds) against the compiled
+Lean driver: exhaustive small scope (every configuration of things x containers on a small grid, as *sweeps*: one engine
+case = one things array against every container configuration of the scope), random larger arrays, a malformed stream,
+every function again at nanosecond-epoch timestamps (T0 = 1.7e18), sort_by_time over spans 4e6 .. 5e18 ns.
+Oracle: the definitions, evaluated directly (all pairs, O(n*m)) in plain Python on what the real code returned, inside the
+documented preconditions only. Open findings probed in their own components: C17-sort-slow-path-not-stable,
+C17-sort-guard-band-key-wrap.
 """
 from __future__ import annotations
 
@@ -29,14 +34,16 @@ ID = "C17"
 LEAN_MODULES = ["StraxModel.Props.C17"]
 TRUSTED = [
     "translator (checks/props/c17.py:regen): AST of overlap_indices -> Generated/OverlapIndices.lean (if/raise/return, +, -, unary -, max, min, comparisons, or)",
-    "modelled not verified: numpy fancy indexing / np.diff / np.where / np.unique / stable mergesort argsort, numba typed-list plumbing",
+    "modelled not verified: numpy fancy indexing / np.diff / np.where / np.unique / stable mergesort argsort / np.sort(order=...) tie-break by the remaining fields, "
+    "float64 conversion and division (round to nearest even) in the sort_by_time guard, numba typed-list plumbing",
     "sweep glue: the driver op `c17.sweep` applies one c17 op to every container configuration listed on the line and joins the answers with ';' (the Python adapter does the same with the real function)",
 ]
 ASSUMPTIONS = [
     "rows are identified by an opaque id; both endtime encodings (endtime field, dt x length) are fed to the real code",
     "containment of a zero-length thing [t,t) is read as 'the instant t lies in the container' (b.time <= t < b.endt); for positive-length things this is the plain subset relation",
     "sort_by_time: guard (float64), composite int64 key (wraps) and the np.sort(order=...) fallback are modelled; `id` stands for all remaining fields of the dtype in the fallback's tie-break",
-    "int64 wrap-around not modelled",
+    "int64 wrap-around is modelled only in sort_by_time (key and time span); elsewhere times stay far from 2^63 (largest generated: 1.7e18 + small, 9.2e18 in the sort components)",
+    "int16 overflow of the shifted channel / channel.max() + 1 and time spans >= 2^63 are not generated",
 ]
 
 # ============================================================================================ step 0: translator
